@@ -88,15 +88,39 @@ def get_default_config():
 
 
 class PrettyPrinter:
+    # The positional parameters of pprint.PrettyPrinter, in order.
+    _POSITIONAL_PARAMETERS = ('indent', 'width', 'depth', 'stream')
+
     def __init__(self, *args, **kwargs):
-        self._args = args
+        if len(args) > len(self._POSITIONAL_PARAMETERS):
+            raise TypeError(
+                'PrettyPrinter takes at most {} positional arguments '
+                '({} given)'.format(
+                    len(self._POSITIONAL_PARAMETERS),
+                    len(args)
+                )
+            )
+
+        for name, arg in zip(self._POSITIONAL_PARAMETERS, args):
+            if name in kwargs:
+                raise TypeError(
+                    "PrettyPrinter got multiple values for argument "
+                    "'{}'".format(name)
+                )
+            kwargs[name] = arg
+
         self._kwargs = kwargs
 
     def pprint(self, object):
-        pprint(object, *self._args, **self._kwargs)
+        pprint(object, **self._kwargs)
 
     def pformat(self, object):
-        return pformat(object, *self._args, **self._kwargs)
+        # Where and how the text is written only concerns pprint.
+        return pformat(object, **{
+            name: arg
+            for name, arg in self._kwargs.items()
+            if name not in ('stream', 'end')
+        })
 
     def isrecursive(self, object):
         return isrecursive(object)
